@@ -336,7 +336,40 @@ impl Property for C11 {
                     if !got.obs_eq(&expected) {
                         return mk("value_roundtrip_equal", format!("{}: {} came back as {}", fmt, expected.to_json(), got.to_json()), fp);
                     }
+                    // the receiving VM may collect while the value is being rebuilt: a collection at
+                    // every allocation, and the natural trigger of a VM with a small memory limit.
+                    // Swept objects are quarantined (poisoned, not freed), so a value that lost a
+                    // part to a collection is recognised without reading freed memory.
+                    use cao_lang::verif::{self, GcSchedule};
+                    for (vm_name, limit, schedule) in [("collect_at_every_allocation", 64usize << 20, GcSchedule::Every), ("limit_256KiB", 256 << 10, GcSchedule::Natural), ("limit_32KiB", 32 << 10, GcSchedule::Natural)] {
+                        let mut vm3 = Vm::new(()).expect("vm");
+                        vm3.runtime_data = cao_lang::vm::runtime::RuntimeData::new(limit, 256, 256).unwrap();
+                        vm3.runtime_data.verif_quarantine = true;
+                        verif::alloc_hooks(&vm3.runtime_data).schedule = schedule;
+                        let v3 = match vm3.insert_value(&back) {
+                            Ok(v) => v,
+                            // a value that does not fit a small VM is refused, which is not a round-trip failure
+                            Err(_) if limit < (1 << 20) => {
+                                labels.push("does_not_fit_small_vm".into());
+                                continue;
+                            }
+                            Err(e) => return mk("value_inserts", format!("{} into a VM with {}: {:?}", fmt, vm_name, e), fp),
+                        };
+                        execs += 1;
+                        if verif::alloc_hooks(&vm3.runtime_data).collections > 0 {
+                            labels.push("collected_during_insert".into());
+                        }
+                        if let Some(d) = crate::props::c02::audit_roots(vec![(v3, "inserted".to_string())]) {
+                            return mk("value_roundtrip_survives_collection", format!("{} into a VM with {}: {} ({})", fmt, vm_name, d, expected.to_json()), fp);
+                        }
+                        let got = MV::from_value(v3);
+                        if !got.obs_eq(&expected) {
+                            return mk("value_roundtrip_equal", format!("{} into a VM with {}: {} came back as {}", fmt, vm_name, expected.to_json(), got.to_json()), fp);
+                        }
+                    }
                 }
+                labels.sort();
+                labels.dedup();
                 CaseOut { verdict: Verdict::Pass, nontrivial, labels, fingerprint: fp, execs }
             }
         }
